@@ -1,4 +1,5 @@
 pub mod c08;
+pub mod c09;
 
 use crate::runner::{Ctx, ReplayFile};
 
@@ -9,6 +10,7 @@ pub fn lookup(id: &str) -> Option<(&'static str, RunFn, ReplayFn, &'static str)>
     // (id, run, replay, level)
     Some(match id {
         "C08" => ("C08", c08::run, c08::replay, "exploration"),
+        "C09" => ("C09", c09::run, c09::replay, "exploration"),
         _ => return None,
     })
 }
